@@ -52,6 +52,7 @@ def showRes : Res → String
 
 def httpContinues : Bool := !(Generated.C13.httpOnWalkError.contains "return" || Generated.C13.httpOnWalkError.contains "break")
 def httpPropagates : Bool := Generated.C13.httpOnWalkError.contains "close-with-error"
+def cmdFinishesOnError : Bool := Generated.C13.cmdDeferred.contains "tar.Close"
 
 def step (line : String) : String :=
   match line.splitOn " " with
@@ -89,9 +90,9 @@ def step (line : String) : String :=
           | none => none
           | some (a, c, m) =>
             -- a commit-on-success command that lost nothing to the kill holds the finished archive; otherwise what was measured
-            if kind == CmdKind.atomic then cmdStored kind outs failing a c m false
-            else cmdStored kind outs failing a c m true
-        let finished := (r.1.toks.length, false, !r.1.broken)
+            if kind == CmdKind.atomic then cmdStored cmdFinishesOnError kind outs failing a c m false
+            else cmdStored cmdFinishesOnError kind outs failing a c m true
+        let finished := (r.1.toks.length, false, !r.1.broken && (cmdFinishesOnError || !r.2))
         -- is the measurement one of the states the model allows?
         let allowed : Bool :=
           match meas with
@@ -101,8 +102,8 @@ def step (line : String) : String :=
             else if !r.2 then (a, c, m) == finished                       -- no fault: the whole archive
             else if kind == CmdKind.atomic then
               -- the kill lost: everything written so far (a stuck writer leaves its last entry cut)
-              (a, c, m) == (r.1.toks.length, r.1.broken, !r.1.broken)
-            else a ≤ r.1.toks.length && (!m || ((a, c) == (r.1.toks.length, false) && !r.1.broken))
+              (a, c, m) == (r.1.toks.length, r.1.broken, !r.1.broken && cmdFinishesOnError)
+            else a ≤ r.1.toks.length && (!m || ((a, c) == (r.1.toks.length, false) && !r.1.broken && cmdFinishesOnError))
         let stFinal : Option Stored :=
           -- for a stuck writer the last entry is short in the stream itself: the model already has it as `full = false`
           match meas, st with
